@@ -5,8 +5,9 @@ Reads the AST of `DBusObjectHandler.handleMethodCallMessage` and `DBusObject.exe
 
   * the three built-in (interface, member) pairs answered by the handler itself, in the code's
     order (`msg.interface == '<I>' and msg.member == '<M>'` tests);
-  * the three lookup failures sent through `self._send_err(msg, '<error name>', <fmt> % <args>)`,
-    in the code's order: error name, `%`-format string, and the source text of every format
+  * the four error replies sent through `self._send_err(msg, '<error name>', <fmt> % <args>)`
+    (UnknownObject, the failure of GetManagedObjects added by repair C10-02, UnknownMethod,
+    InvalidArgs), in the code's order: error name, `%`-format string, and the source text of every format
     argument (the model applies the arguments by hand; a `decide` lemma in Properties/C10.lean
     pins the argument texts the model assumes);
   * from the nested `send_error`: the `'org.txdbus.PythonException.'` prefix, the format of the
@@ -205,8 +206,9 @@ def tables(repo):
     if len(pairs) != 3:
         raise TranslatorError('expected 3 built-in (interface, member) tests, found %r' % (pairs,))
     errs = send_err_calls(fn)
-    if len(errs) != 3:
-        raise TranslatorError('expected 3 _send_err calls, found %r' % (errs,))
+    if len(errs) != 4:
+        raise TranslatorError('expected 4 _send_err calls (UnknownObject, GetManagedObjects failure, '
+                              'UnknownMethod, InvalidArgs), found %r' % (errs,))
     for name, fmt, args in errs:
         check_format(fmt, len(args), name)
     prefix, notice, fallback = send_error_tables(fn)
